@@ -135,7 +135,7 @@ func init() {
 	fire("C08", "add-table-appends-into-first-operand", cd, `var finalCodons \[\]Codon\n\t\tfor _, firstCodon`, "finalCodons := firstAa.Codons[:0]\n\t\tfor _, firstCodon", "WRITERS/AddCodonTable")
 	fire("C09", "extension-skips-bodies-already-in-seed", "clone/clone.go", `if seedFragment\.ReverseOverhang == newFragment\.ForwardOverhang \{`, `if seedFragment.ReverseOverhang == newFragment.ForwardOverhang && !strings.Contains(seedFragment.Sequence, newFragment.Sequence) {`, "TERM-LIGATE/forward")
 	fire("C10", "short-stretches-dropped", "clone/clone.go", `\t\tfor _, fragment := range fragmentSeqs \{\n`, "\t\tfor _, fragment := range fragmentSeqs {\n\t\t\tif len(fragment) <= 2*enzyme.OverhangLen {\n\t\t\t\tcontinue\n\t\t\t}\n", "TERM-GEOM/Fragment")
-	fire("C12", "scan-stops-at-long-border", "seqhash/seqhash.go", `\t\tfailure := failureSlice\[characterIndex-leastRotationIndex-1\]\n`, "\t\tfailure := failureSlice[characterIndex-leastRotationIndex-1]\n\t\tif failure+1 > len(sequence)/4 {\n\t\t\tbreak\n\t\t}\n", "ORDER-DIR/BYTEWISE")
+	// (the early-exit rule ORDER-DIR/BYTEWISE no longer claims a violation: a sound cut-off and a lost comparison have the same loop shape; its variant "scan-stops-at-long-border" was removed with it)
 	fire("C13", "non-blocking-final-send", "io/fasta/fasta.go", `\tsequences <- newFasta\n\tclose\(sequences\)`, "\tselect {\n\tcase sequences <- newFasta:\n\tdefault:\n\t}\n\tclose(sequences)", "CHANLIFE/blocking-sends")
 	fire("C14", "attribute-pairs-trimmed", "io/gff/gff.go", `strings\.Split\(attribute, "="\)`, `strings.Split(strings.TrimSpace(attribute), "=")`, "FIELDMAP/Parse:col9")
 	fire("C15", "features-readded-conditionally", "io/polyjson/polyjson.go", `\t\tsequence\.AddFeature\(&feature\)\n`, "\t\tif feature.SequenceLocation.End <= len(sequence.Sequence) {\n\t\t\tsequence.AddFeature(&feature)\n\t\t}\n", "RELINK/Parse:AddFeature")
@@ -167,4 +167,10 @@ func init() {
 	silent("C10", "palindrome-remembered-by-recognition-site", cl, cutHead, memo("enzyme.RecognitionSite"))
 	fire("C15", "json-encoded-into-pooled-buffer", pj, `(?s)"encoding/json"\n(.*?)func Write\(sequence poly\.Sequence, path string\) \{\n\tfile, _ := json\.MarshalIndent\(sequence, "", " "\)\n`,
 		"\"bytes\"\n\t\"encoding/json\"\n\t\"sync\"\n${1}var jsonBuffers = sync.Pool{New: func() interface{} { return new(bytes.Buffer) }}\n\nfunc encodeJSON(sequence poly.Sequence) []byte {\n\tbuffer := jsonBuffers.Get().(*bytes.Buffer)\n\tdefer jsonBuffers.Put(buffer)\n\tbuffer.Reset()\n\tencoder := json.NewEncoder(buffer)\n\tencoder.SetIndent(\"\", \" \")\n\t_ = encoder.Encode(sequence)\n\treturn bytes.TrimSuffix(buffer.Bytes(), []byte(\"\\n\"))\n}\n\nfunc Write(sequence poly.Sequence, path string) {\n\tfile := encodeJSON(sequence)\n", "STATE/pool")
+	loopHead := `(?s)\t\tfor _, newFragment := range fragmentList \{\n(.*?)newSeed := Fragment\{seedFragment\.Sequence \+ seedFragment\.ReverseOverhang \+ newFragment\.Sequence, seedFragment\.ForwardOverhang, newFragment\.ReverseOverhang\}\n\t\t\t\twg\.Add\(1\)\n\t\t\t\tgo recurseLigate\(wg, c, newSeed, fragmentList\)\n`
+	hoisted := func(spawn string) string {
+		return "\t\tvar newSeed Fragment\n\t\tfor _, newFragment := range fragmentList {\n${1}newSeed = Fragment{seedFragment.Sequence + seedFragment.ReverseOverhang + newFragment.Sequence, seedFragment.ForwardOverhang, newFragment.ReverseOverhang}\n\t\t\t\twg.Add(1)\n\t\t\t\t" + spawn + "\n"
+	}
+	fire("C09", "grown-seed-shared-with-started-worker", cl, loopHead, hoisted("go func() { recurseLigate(wg, c, newSeed, fragmentList) }()"), "STATE/go-capture")
+	silent("C09", "grown-seed-passed-to-started-worker", cl, loopHead, hoisted("go func(seed Fragment) { recurseLigate(wg, c, seed, fragmentList) }(newSeed)"))
 }
